@@ -5,6 +5,15 @@ rules and the delivery format (nothing from /verif). The sub-agents are then sta
 import json, os, subprocess, sys
 root, wave = sys.argv[1], int(sys.argv[2])
 EMPHASIS = {
+ 8: """   * the per-type TABLES of the object model rather than the generic machinery: one property of one class whose kind / `required` / default / allowed values / bounds / precision / valid
+     reference types is slightly off, one entry of a vocabulary or of an `_id_contributing_properties` list dropped or added, one class's `_check_object_constraints` weakened, the order of a
+     property table changed - pick classes and properties that are NOT the usual examples (not malware / indicator / file `name`),
+   * a REFACTORING gone slightly wrong: a helper extracted where one argument is no longer passed on, a `super()` call dropped or moved, a method overridden in a subclass with a narrower
+     signature, a mixin order changed, a loop variable captured late in a closure, a dictionary comprehension that silently de-duplicates, `dict.update` order reversed,
+   * a repair applied to the STIX 2.0 module but not to its 2.1 twin (or the reverse), or to the SDO flavour of a decorator / helper but not to the SCO / marking / extension flavour,
+   * something evaluated at IMPORT time that must be evaluated per call (a default timestamp, a default list, a uuid, a compiled table built before registrations happen) or the reverse,
+   * a type-specific rule that needs TWO properties to meet (a co-constraint, a dependency, a mutually exclusive pair, a "at least one of" group, start/stop or first/last ordering),
+   * `__eq__` / `__hash__` / ordering of library objects and timestamps used as dictionary keys or in sets by the datastore and de-duplication code.""",
  7: """   * a PERFORMANCE-motivated rewrite that is right for the common input only: a memo / lru_cache / class-level table keyed too coarsely, a fast path that skips a step for "already clean"
      values, an early exit from a loop, a pre-computed set that goes stale, `is` instead of `==`, a generator where a list was re-read,
    * the Python data model of the library's own objects: `==` / `!=` / hash, `in`, `len`, `keys()` / `items()` / `get()`, iteration order, `copy` / `deepcopy` / `pickle`, `str` / `repr`,
@@ -59,6 +68,7 @@ for l in open('/verif/properties.jsonl'):
     text = f"""# Task: produce property-breaking changes ("seeded defects") for oasis-open/cti-python-stix2
 
 You work ONLY inside your own scratch git worktree of the library: `{wt}` (a detached checkout).
+Never use `git stash` (the stash is shared by all worktrees; use `git diff > file; git checkout -- .; git apply file`).
 Do NOT read or write anything under `/verif` or `/repo` (other agents own those); do not touch other directories under {root}.
 There is no network. Python is `/venv/bin/python` (3.12). The library is installed in development mode pointing at /repo, so to
 import YOUR worktree's code always run with `cd {wt} && PYTHONPATH={wt} /venv/bin/python -B ...` and verify once with
